@@ -384,7 +384,7 @@ func c18Limits(r *RNG, newLen, oldLen int, n int, all bool) []int {
 		return res
 	}
 	set := map[int]bool{0: true, 1: true, 2: true, newLen - 1: true, newLen: true, newLen + 1: true, oldLen: true, oldLen - 1: true, 512: true, 4096: true, 4095: true}
-	for len(set) < n+6 {
+	for tries := 0; len(set) < n+6 && tries < 20*n; tries++ {
 		switch r.Intn(3) {
 		case 0:
 			set[r.Intn(newLen+2)] = true
@@ -428,8 +428,8 @@ func c18InferTarget(r *RNG, kind string) string {
 }
 
 func (c *Ctx) c18Limit() {
-	nfiles := c.N(14, 60)
-	perFile := c.N(40, 120)
+	nfiles := c.N(32, 120)
+	perFile := c.N(50, 120)
 	scratch := filepath.Join(c.WorkDir, "render")
 	bt := c.NewBatch()
 	defer bt.Flush()
@@ -514,7 +514,7 @@ var c18Injects = []c18Inject{
 }
 
 func (c *Ctx) c18InjectStream() {
-	nfiles := c.N(5, 24)
+	nfiles := c.N(12, 40)
 	scratch := filepath.Join(c.WorkDir, "render")
 	errnos := []string{"EIO", "ENOSPC", "EACCES"}
 	bt := c.NewBatch()
@@ -553,9 +553,11 @@ func (c *Ctx) c18InjectStream() {
 				c.Monitor("inject", i, "C18_invariant after a crash (allOrNothing, status unknown)", in, mon == "ok",
 					fmt.Sprintf("%s: old=%s new=%s observed=%s", mon, clip(old), clip(nw), clip(obs.Target)))
 			}, "c18mon", old, nw, obs.Target, "-")
-			bt.Add(func(ans string) {
-				c.Compare("inject", i, "c18crash", in, "state-of-the-model", ans)
-			}, "c18crash", old, nw, obs.Target, obs.Tmp)
+			if len(f.New) <= 1500 { // the model's state list is quadratic in the file size
+				bt.Add(func(ans string) {
+					c.Compare("inject", i, "c18crash", in, "state-of-the-model", ans)
+				}, "c18crash", old, nw, obs.Target, obs.Tmp)
+			}
 		}
 		for _, inj := range c18Injects {
 			for n := 1; n <= inj.Max; n++ {
@@ -587,7 +589,7 @@ func (c *Ctx) c18InjectStream() {
 // ---------------------------------------------------------------- perm stream (unprivileged user)
 
 func (c *Ctx) c18Perm() {
-	n := c.N(40, 300)
+	n := c.N(160, 2000)
 	scratch := filepath.Join(c.WorkDir, "render")
 	bt := c.NewBatch()
 	defer bt.Flush()
@@ -646,7 +648,7 @@ func (c *Ctx) c18Perm() {
 // ---------------------------------------------------------------- multi stream
 
 func (c *Ctx) c18Multi() {
-	n := c.N(60, 600)
+	n := c.N(200, 3000)
 	scratch := filepath.Join(c.WorkDir, "render")
 	bt := c.NewBatch()
 	defer bt.Flush()
